@@ -106,6 +106,9 @@ var OddMods = []ModPool{
 	{"bom\ufeffinside", []string{"v1.0.0"}, nil},
 	{"line\u2028sep", []string{"v1.0.0"}, nil},
 	{"soft\u00adhyphen", []string{"v1.0.0"}, nil},
+	{"example.com/cafe\u0301", []string{"v1.0.0"}, nil}, // combining marks (categories Mn, Mc, Me): printable, not letters
+	{"example.com/\u0915\u0903", []string{"v1.0.0"}, nil},
+	{"circled\u20dd/x", []string{"v1.0.0"}, nil},
 	{"back\\slash", []string{"v1.0.0"}, nil}, // backslashes, alone and together with other characters that force quoting
 	{"back\\slash space", []string{"v1.0.0"}, nil},
 	{"b\\s,comma", []string{"v1.0.0"}, nil},
@@ -125,7 +128,7 @@ var MarkerDirs = []string{"./b//", "./vendor/*", "../forks/a//", "./x/*"}
 
 var WinDirs = []string{"C:\\Users\\gopher\\my mods\\a", ".\\win", ".\\win dir", "..\\up,comma", "D:\\x\\"}
 
-var Dirs = []string{"./nb\u00a0sp", "./ideo\u3000x", "./a", "../b", "/abs/dir", "./x y", ".", "..", "./a/b", "./c", "./d", "C:/dir", "./é"}
+var Dirs = []string{"../cafe\u0301/menu", "./nb\u00a0sp", "./ideo\u3000x", "./a", "../b", "/abs/dir", "./x y", ".", "..", "./a/b", "./c", "./d", "C:/dir", "./é"}
 var GoVersions = []string{"1.12", "1.20", "1.21", "1.21.0", "1.22.3", "1.23rc1", "1.9", "1.24", "1.100"}
 var Toolchains = []string{"go1.21.0", "go1.22.3", "default", "go1.23rc1", "go1", "go1.21.0-custom"}
 var GodebugKeys = []string{"panicnil", "http2client", "asynctimerchan", "k1", "default"}
@@ -375,6 +378,11 @@ func Gen(t *rapid.T, o Options) File {
 				// (retract blocks stay uncommented: collapsing a one-line commented block merges the
 				// block comment into the line's rationale, which legitimately changes the parsed text)
 				s.Before = []string{"BLOCK" + strconv.Itoa(g.nextID)}
+			}
+			if o.Markers && gen.Chance(t, 10, "lparenmarker") {
+				// a comment on the line of the opening parenthesis (retract blocks too: it belongs to the parenthesis,
+				// not to any line, and is no part of a rationale)
+				s.LParenSuffix = "LP" + strconv.Itoa(g.nextID)
 			}
 			if !o.NoComments {
 				// something between the last line and ")": such a block is never collapsed
